@@ -503,7 +503,13 @@ def check_bookkeeping(prog, ctx, ds):
         why = "a non-overriding scaling overwrites %s: revert_scaling can no longer restore the samples as they were before the first scaling" % sorted({"_original_min", "_original_max", "_scaled"} & set(cps))
         if ok and mname in ("scale_factor", "scale_range"):
             fs = cps.get("_scaling_factor", [])
-            ok = len(fs) == 1 and fs[0][0].kind == "aug" and isinstance(fs[0][0].stmt.op, ast.Mult)
+            def composes(st_):
+                if st_.kind == "aug":
+                    return isinstance(st_.stmt.op, ast.Mult)
+                v_ = st_.value                       # re-binding form  self._scaling_factor = self._scaling_factor * e  (either order)
+                return st_.kind == "plain" and isinstance(v_, ast.BinOp) and isinstance(v_.op, ast.Mult) and \
+                    any(R.self_attr(side, fi.self_name) == "_scaling_factor" for side in (v_.left, v_.right))
+            ok = len(fs) == 1 and composes(fs[0][0])
             why = "a non-overriding %s does not compose the scaling factor multiplicatively" % mname
         ctx.check(ok, "C18.D5", R.key_of(fi, "compose-keeps-original"), fi.loc(),
                   "a non-overriding scaling keeps the recorded original extrema and composes the factor", "%s: %s" % (fi.name, why))
@@ -782,6 +788,36 @@ def check_no_inplace_on_shared_arrays(prog, ctx, ds):
                     ctx.check(ok, "C18.D7", R.key_of(fi, "inplace-store:%s" % src(el.value)[:40]), fi.loc(st),
                               "the only in-place element stores into data arrays act on DataSets freshly built in the same function",
                               why)
+    # attributes handed over by reference (to_update.A = self.A in _update_internal; copy() shares the whole __dict__) are never modified
+    # in place: an augmented assignment or element store on such an attribute that may hold an array also changes the derived /
+    # parent set.  "May hold an array": some store of the attribute takes a value that is not a constant / arithmetic of constants.
+    upd = prog.func(DS + "._update_internal")
+    tgt = upd.params[1] if len(upd.params) > 1 else None
+    by_ref = set()
+    for st in walk_local(upd.node):
+        if isinstance(st, ast.Assign) and len(st.targets) == 1 and isinstance(st.targets[0], ast.Attribute) and isinstance(st.targets[0].value, ast.Name) \
+                and st.targets[0].value.id == tgt and isinstance(st.value, ast.Attribute) and isinstance(st.value.value, ast.Name) \
+                and st.value.value.id == upd.self_name and st.value.attr == st.targets[0].attr:
+            by_ref.add(st.value.attr)
+
+    def constant_like(v):
+        return v is None or all(isinstance(x, (ast.Constant, ast.BinOp, ast.UnaryOp, ast.operator, ast.unaryop, ast.Tuple, ast.expr_context)) for x in ast.walk(v))
+    maybe_array = set()
+    for fi in ds.methods.values():
+        for s_ in R.self_stores(fi):
+            if s_.attr in by_ref and s_.kind == "plain" and not constant_like(s_.value):
+                maybe_array.add(s_.attr)
+    n_aug = 0
+    for name, fi in sorted(ds.methods.items()):
+        for s_ in R.self_stores(fi):
+            if s_.attr in maybe_array and s_.kind in ("aug", "elem", "elem_aug"):
+                n_aug += 1
+                ctx.violation("C18.D7", R.key_of(fi, "inplace-on-shared-attribute:%s" % s_.attr), fi.loc(s_.stmt),
+                              "`%s` modifies self.%s in place; _update_internal / copy() hand this attribute to derived sets by reference, so "
+                              "the set this one was derived from (or its pieces) see the change" % (src(s_.stmt)[:80], s_.attr))
+    ctx.check(bool(maybe_array), "C18.D7", "%s::shared-attributes-not-modified-in-place" % DS, upd.loc(),
+              "attributes handed over by reference that may hold arrays (%s) are only ever re-bound (%d in-place modifications)" % (sorted(maybe_array), n_aug),
+              "_update_internal no longer hands any array-valued attribute over by reference (by reference: %s)" % sorted(by_ref))
     ctx.note("C18.D7", "%s::array-ownership" % DS, "sparseSpACE/DEMachineLearning.py",
              "%d in-place element store(s) into DataSet arrays analysed in %d functions; fresh-array producers: %s" % (n_sites, n_methods, sorted(fresh)))
     ctx.floor("C18.D7", len(fresh), 1, "DataSet methods that build their results from fresh arrays")
